@@ -143,7 +143,7 @@ func genC16(tier int) (map[string][]byte, error) {
 }
 
 func init() {
-	register(&CheckDef{ID: "C16", Level: "model_checking", Gen: genC16, Timeout: [2]int{400, 1500},
+	register(&CheckDef{ID: "C16", Level: "model_checking", Gen: genC16, Timeout: [2]int{700, 1500},
 		Assumptions: []string{
 			"strconv.ParseFloat / AppendFloat / FormatFloat are uninterpreted (decimal float text round trips of Aperture, FocalLength, ExposureTime are NOT decided; only totality, suffix handling and the MessagePack bit-pattern round trip are)",
 			"msgp byte-slice API, encoding/hex, strconv integer formatting are interpreted from their real SSA",
